@@ -3,6 +3,7 @@ This module implements the SNMPv3 "User Security Model" as defined in
 :rfc:`3414`
 """
 
+import time
 from dataclasses import dataclass, replace
 from textwrap import indent
 from typing import Awaitable, Callable, Union, cast
@@ -422,6 +423,30 @@ class UserSecurityModel(
         engine_config = self.local_config.setdefault(engine_id, {})
         engine_config["authoritative_engine_boots"] = engine_boots
         engine_config["authoritative_engine_time"] = engine_time
+        # The engine-time keeps running on the remote engine. Remember when
+        # we learned it to be able to estimate its current value later on.
+        engine_config["received_at"] = time.time()
+
+    def update_engine_timing(
+        self, security_params: USMSecurityParameters
+    ) -> None:
+        """
+        Synchronise our notion of the remote engine's boots and time with the
+        values of an *authentic* incoming message (including reports), as per
+        :rfc:`3414#section-3.2` step 7b. This keeps long-lived clients inside
+        the time-window and lets them recover after the remote engine
+        rebooted.
+        """
+        engine_id = security_params.authoritative_engine_id
+        boots = security_params.authoritative_engine_boots
+        engine_time = security_params.authoritative_engine_time
+        known = self.local_config.get(engine_id, {})
+        known_boots = known.get("authoritative_engine_boots", -1)
+        known_time = known.get("authoritative_engine_time", -1)
+        if boots > known_boots or (
+            boots == known_boots and engine_time > known_time
+        ):
+            self.set_engine_timing(engine_id, boots, engine_time)
 
     def generate_request_message(
         self,
@@ -438,6 +463,9 @@ class UserSecurityModel(
         engine_config = self.local_config[security_engine_id]
         engine_boots = engine_config["authoritative_engine_boots"]
         engine_time = engine_config["authoritative_engine_time"]
+        if "received_at" in engine_config:
+            # See https://tools.ietf.org/html/rfc3414#section-2.3
+            engine_time += int(time.time() - engine_config["received_at"])
 
         encrypted_message = apply_encryption(
             message,
@@ -473,6 +501,8 @@ class UserSecurityModel(
             raise UnknownUser(f"Unknown user {security_name!r}")
 
         verify_authentication(message, credentials, security_params)
+        if message.header.flags.auth:
+            self.update_engine_timing(security_params)
         message = decrypt_message(message, credentials)
         validate_usm_message(message)
         validate_security_level(message, credentials)
